@@ -1043,8 +1043,11 @@ class _L1DynamicsService(_CollinearDynamicsService):
             [min_x, max_x] interval for root finding in nondimensional units.
             L1 is between the primaries: -mu < x < 1-mu.
         """
-        # L1 is between the primaries: -mu < x < 1-mu
-        return [-self.mu + 0.01, 1 - self.mu - 0.01]
+        # L1 is between the primaries: -mu < x < 1-mu.  It sits about one Hill
+        # radius (mu/3)^(1/3) from the secondary, so the margin on that side
+        # must shrink with mu or the bracket excludes the root for tiny mu.
+        margin = min(0.01, 0.5 * (self.mu / 3.0) ** (1.0 / 3.0))
+        return [-self.mu + 0.01, 1 - self.mu - margin]
 
     @property
     def _gamma_poly_def(self) -> Tuple[list, tuple]:
@@ -1117,8 +1120,10 @@ class _L2DynamicsService(_CollinearDynamicsService):
             [min_x, max_x] interval for root finding in nondimensional units.
             L2 is beyond the smaller primary: x > 1-mu.
         """
-        # L2 is beyond the smaller primary: x > 1-mu
-        return [1 - self.mu + 0.001, 2.0]
+        # L2 is beyond the smaller primary: x > 1-mu, about one Hill radius
+        # (mu/3)^(1/3) away; keep the margin below that distance for tiny mu.
+        margin = min(0.001, 0.5 * (self.mu / 3.0) ** (1.0 / 3.0))
+        return [1 - self.mu + margin, 2.0]
 
     @property
     def _gamma_poly_def(self) -> Tuple[list, tuple]:
